@@ -15,7 +15,10 @@ from http.server import BaseHTTPRequestHandler, HTTPServer
 BODY = json.dumps({"data": {"__schema": {"queryType": {"name": "Query"}, "mutationType": None, "subscriptionType": None,
         "types": [{"kind": "OBJECT", "name": "Query", "description": None, "fields": [{"name": "x", "description": None, "args": [],
         "type": {"kind": "SCALAR", "name": "Int", "ofType": None}, "isDeprecated": False, "deprecationReason": None}],
-        "inputFields": None, "interfaces": [], "enumValues": None, "possibleTypes": None}], "directives": []}},
+        "inputFields": None, "interfaces": [], "enumValues": None, "possibleTypes": None, "isOneOf": None},
+        {"kind": "INPUT_OBJECT", "name": "Pick", "description": None, "fields": None, "inputFields": [{"name": "a", "description": None,
+        "type": {"kind": "SCALAR", "name": "Int", "ofType": None}, "defaultValue": None}], "interfaces": None, "enumValues": None, "possibleTypes": None, "isOneOf": True}],
+        "directives": []}},
         "unicode": "héllo \U0001F600", "number": 1.5})
 
 class H(BaseHTTPRequestHandler):
@@ -296,7 +299,14 @@ pub fn run(outdir: &Path, tier: &str, seed: u64, shards: usize, _replay: Option<
                     let auth_ok = !auth || got("authorization").as_deref() == Some("Bearer s3cret-token");
                     let output_equal: Option<bool> = if exit_ok {
                         let text = if with_output { std::fs::read_to_string(&outfile).unwrap_or_default() } else { out.as_ref().map(|o| String::from_utf8_lossy(&o.stdout).to_string()).unwrap_or_default() };
-                        Some(serde_json::from_str::<Value>(&text).map(|v| v == mock.body).unwrap_or(false))
+                        // ... and the written document is a schema the code generator can load (a spec-compliant server
+                        // answers `isOneOf: null` on every type that is not an input object)
+                        let same = serde_json::from_str::<Value>(&text).map(|v| v == mock.body).unwrap_or(false);
+                        let loads = matches!(runner::generate(&text, "json", "query Q { x }", &crate::gql::Opts { operation_name: Some("Q".into()), ..Default::default() }), runner::Outcome::Ok(_));
+                        if !loads {
+                            *dist.entry("run/output written but not loadable as a schema".into()).or_default() += 1;
+                        }
+                        Some(same && loads)
                     } else {
                         None
                     };
